@@ -330,6 +330,44 @@ def rule_MP13(rep, prog):
         rep.unknown(rid, "loop-carried ring fill index of _dispatch_disk_handler not recognised")
 
 
+def rule_MP14(rep, srcdir, tier):
+    rid = rep.rule("C14-MP14", "one epoll registration per descriptor serves the read AND the write side: every EPOLL_CTL_MOD of a muxnote re-registers (at least) all "
+                   "events the muxnote currently has armed - computed by _dispatch_muxnote_armed_events after the last change to its event masks - never only the "
+                   "events of the source being re-armed (the other direction's EPOLLIN / EPOLLOUT would silently leave the kernel's interest set: a read waiting "
+                   "on a socket that also carries a write never sees its data)", floor=3)
+    pe, _u = load(["event/event_epoll"], tier, srcdir)
+    k = consts.get(["EPOLL_CTL_MOD"], unit="event/event_epoll", includes=("sys/epoll.h",))
+    n = 0
+    for fn in pe.all_functions():
+        for c in calls_named(fn, "_dispatch_epoll_update"):
+            if not (c.ops[2][0] == "c" and c.ops[2][1] == k["EPOLL_CTL_MOD"]):
+                continue
+            n += 1
+            rep.saw(fn)
+            dmn = root_ptr(fn, c.ops[0])
+            armed = []
+            seen, work = set(), [c.ops[1]]
+            while work:
+                o = work.pop()
+                i = fn.inst(o) if o[0] == "i" else None
+                if i is None or i.id in seen:
+                    continue
+                seen.add(i.id)
+                if i.op == "call" and i.callee == "_dispatch_muxnote_armed_events" and root_ptr(fn, i.ops[0]) == dmn:
+                    armed.append(i)
+                elif i.op in ("or", "zext", "trunc", "phi", "select"):
+                    work += [x[0] if (i.op == "phi") else x for x in (i.ops if i.op != "select" else i.ops[1:])]
+            masks = [st for st in fn.all_insts() if st.op == "store" and (pe.fields(st) & {"dmn_events", "dmn_disarmed_events"})]
+            stale = [st for a in armed for st in masks if fn.inst_reaches(a, st) and fn.inst_reaches(st, c) and not fn.inst_reaches(c, a)]
+            rep.require(rid, bool(armed) and not stale, c.loc, fn.name, "epoll-mod-drops-armed-events:%s" % fn.name,
+                        "%s re-registers the descriptor with EPOLL_CTL_MOD using an event mask that %s: the registration must cover everything the muxnote has armed "
+                        "(both directions), or the other direction's source stops receiving events while the muxnote still records it as armed"
+                        % (fn.name, "is not derived from _dispatch_muxnote_armed_events of that muxnote" if not armed else "was computed before the muxnote's masks were last changed"),
+                        sample={"fn": fn.name, "at": c.loc})
+    if n < 3:
+        rep.unknown(rid, "fewer than 3 EPOLL_CTL_MOD updates found (%d)" % n)
+
+
 def _handler_calls(prog, fn):
     """indirect calls of the client's io handler block: (block, bool done, data, int error)"""
     return [c for c in fn.all_insts() if c.op == "call" and "icallee" in c.d and len(c.ops) == 4 and (c.ops[1][0] in ("c", "i"))]
@@ -459,6 +497,27 @@ def run(rep, tier="quick", srcdir=None, only=None):
         rule_OD12(rep, prog)
     if want("C14-MP13"):
         rule_MP13(rep, prog)
+    if want("C14-MP14"):
+        rule_MP14(rep, srcdir, tier)
+    if want("C06-AI3"):
+        # an fd_entry lives exactly as long as its close queue stays suspended: the suspend count of that queue is the entry's reference count (one per
+        # channel, per operation, per handler delivery), so the cleanup handler runs after the last I/O handler only if no suspension is lost when the inline
+        # counter spills into the side counter (shared with C06)
+        from . import C06
+        from dqsa import trans as _trans
+        pq, _u = load(["queue"], tier, srcdir)
+        ex_ = _trans.Extractor(pq, tier)
+        ex_.compute_argbits()
+        C06.rule_AI3(rep, pq, Q(srcdir), ex_)
+    if want("C13-AI6") or want("C13-AI10"):
+        # the write path keeps "what is still unwritten" as dispatch_data_create_subrange(data, written, rest) of fragmented client data: the bytes that
+        # reach the descriptor are the submitted ones only if that subrange denotes exactly [written, end) (shared with C13)
+        from . import C13
+        pd, _u = load(["data"], tier, srcdir)
+        if want("C13-AI6"):
+            C13.rule_AI6(rep, pd)
+        if want("C13-AI10"):
+            C13.rule_AI10(rep, pd)
 
 
 MANIFEST = {
